@@ -550,7 +550,8 @@ func (w *World) Run() error {
 			}
 			w.kept = nil
 			dhh, dbh, _ := diskTips(img)
-			ev["at"], ev["ihh"], ev["ibh"] = s.At, dhh, dbh
+			_, marked := img[string([]byte{byte(storage.SYSStateChangeStage)})]
+			ev["at"], ev["ihh"], ev["ibh"], ev["imark"] = s.At, dhh, dbh, marked
 			old := w.bc
 			w.inner = img.Clone().Store()
 			w.rec = NewRecStore(w.inner)
